@@ -448,6 +448,14 @@ static void atfork_child_fork_exec(void) {
     nested = 0;
     out("{\"atfork_child_call\":1,\"ret\":-1,\"reached_real_exec\":%d,\"nested_fork\":1}\n", (g > 0 && WIFEXITED(st) && WEXITSTATUS(st) == 0) ? 1 : 0);
 }
+/* an application PREPARE handler that spawns a helper with fork() (and waits for it): the library's handlers run nested, once for the helper's fork
+   inside the outer one */
+static void atfork_prepare_forks_helper(void) {
+    static int nested; if (nested) return; nested = 1;
+    pid_t g = fork(); if (g == 0) _exit(0);
+    int st = 0; while (g > 0 && waitpid(g, &st, 0) < 0 && errno == EINTR) {}
+    nested = 0;
+}
 static long onthread_kb = 0;
 struct thr_call { char **tok; int nt; };
 static void *thr_call_main(void *a) { struct thr_call *tc = a; do_call(tc->tok, tc->nt); return NULL; }
@@ -585,6 +593,7 @@ int main(int argc, char **argv) {
         else if (!strcmp(tok[0], "hugecall")) do_hugecall(nt > 1 ? tok[1] : "mid");
         else if (!strcmp(tok[0], "nonblock")) { /* the caller keeps this descriptor in non-blocking mode (an event-driven program): the mode belongs to the shared open file description */
             int fd = atoi(tok[1]); int fl = fcntl(fd, F_GETFL); if (fl < 0 || fcntl(fd, F_SETFL, fl | O_NONBLOCK)) { perror("nonblock"); return 3; } }
+        else if (!strcmp(tok[0], "atforkprefork")) { if (pthread_atfork(atfork_prepare_forks_helper, NULL, NULL)) { perror("pthread_atfork"); return 3; } }
         else if (!strcmp(tok[0], "atforkfork")) { if (pthread_atfork(NULL, NULL, atfork_child_fork_exec)) { perror("pthread_atfork"); return 3; } }
         else if (!strcmp(tok[0], "atforkexec")) { if (pthread_atfork(NULL, NULL, atfork_child_exec)) { perror("pthread_atfork"); return 3; } }
         else if (!strcmp(tok[0], "prname")) { char *p = mkstr(tok[1]); prctl(PR_SET_NAME, p, 0, 0, 0); free(p); }
